@@ -7,7 +7,9 @@ from checks import common, c04
 def run(tier, seed):
     chk = Check("C18", tier, seed)
     specs = [TaskSpec("teardown[%s]" % w, "contracts.transport", "task_c18", (w,), replay_kind="transport.teardown", python=PY_FULL, scenario=True) for w in ("tcp", "tty")]
-    specs += [s for s in c04.router_specs() if s.name.startswith("mutator")]
+    # router side: the mutators (unregister forgets the client and its policy row, register gives defaults) and process_message itself:
+    # "no further delivery is attempted to it" is its postcondition "delivered exactly to the REGISTERED clients the policy lets through", for any registry
+    specs += c04.router_specs()
     chk.add_results(run_tasks(specs))
     for fn in ("ConnectionHandler.__init__", "ConnectionHandler.handler", "ConnectionHandler.wait_for_messages", "ConnectionHandler.message_from_client",
                "ConnectionHandler.close"):
@@ -20,13 +22,17 @@ def run(tier, seed):
         "cancellation (CancelledError); the receive loop is analysed by the invariant rule, so the fault may occur at any iteration, inside a message or after junk",
         "message handling may raise anything (router_may_raise): covers 'an error while one of its messages is being handled'",
         "StreamWriter.close() and logger.exception() do not raise",
-        "router side (shared with C04/C05): unregister_client forgets the client and its BLOB policy row and leaves every other client registered with its policy; "
-        "register_client gives a (re)connecting peer the default policy; after unregistration process_message delivers only to registered clients",
+        "router side (obligations shared with C04/C05, discharged here as well): unregister_client forgets the client and its BLOB policy row and leaves every other client registered with its policy; "
+        "register_client gives a (re)connecting peer the default policy; process_message delivers exactly to the registered clients the policy lets through, for any registry -- "
+        "router state kept in fields OTHER than clients / blob_routing is outside these contracts and is covered by the bounded router-history stand-in only",
         "NOT covered: a write error on the peer surfaces in a separate send task, not in the per-connection coroutine; nothing unregisters the connection on that path until its read side fails "
         "(limitation of the statement's reach, see DESIGN); tasks already queued when the connection closes may still attempt a write to the closed writer",
     ]
     chk.standin_on_out_of_reach("native teardown scenarios", "transport.teardown", {}, python=PY_FULL, always=True,
                                 bound_text="real tcp and tty handlers on fake streams: fault kinds {EOF, read error, EOF inside a message, junk then EOF, handler exception, cancellation, OSError} x 5 session "
                                            "prefixes; a second connection must keep receiving device traffic")
+    chk.standin_on_out_of_reach("native router histories", "router.history", {"seed": seed, "n": 300 if tier == "quick" else 3000}, always=True,
+                                bound_text="random histories (register / unregister / re-register / enableBLOB / device messages incl. BLOBs / client messages) of 3 clients x 2 devices on the real "
+                                           "router against a reference model: nothing is delivered to an unregistered client, a re-registered one starts from default settings")
     chk.min_obligations = 60
     return chk.finish()
